@@ -68,9 +68,10 @@ Definition send (s : state) (a b : acct) (d : denom) (amt : Z) : option state :=
 Definition mint (s : state) (a : acct) (d : denom) (amt : Z) : state :=
   if amt =? 0 then s else
   set_bank s (upd_bal (st_bal s) a d (st_bal s a d + amt)) (upd_sup (st_sup s) d (st_sup s d + amt)).
+(* BurnCoins: the module balance and the supply are both decreased; Coin.Sub panics on a negative result *)
 Definition burn (s : state) (a : acct) (d : denom) (amt : Z) : option state :=
   if amt =? 0 then Some s else
-  if st_bal s a d <? amt then None else
+  if (st_bal s a d <? amt) || (st_sup s d <? amt) then None else
   Some (set_bank s (upd_bal (st_bal s) a d (st_bal s a d - amt)) (upd_sup (st_sup s) d (st_sup s d - amt))).
 
 (** * Lookups *)
